@@ -17,7 +17,7 @@ Events of a path, in order:
   ('call', bb, path, args, span, generic_args_text)
   ('store', bb, place_term, value_term, span)   assignment to a non-local place (through a reference / field of an argument)
   ('assert', bb, kind, span)
-  ('ret', bb, term) | ('loop', bb) | ('diverge', bb) | ('unreachable', bb)
+  ('ret', bb, term) | ('loop', bb, carried) | ('diverge', bb) | ('unreachable', bb) | ('head', bb) first entry of a loop header
 """
 import re
 
@@ -191,7 +191,8 @@ class Walker:
                     for x in body:
                         blk = b.blocks[x]
                         for st in blk["stmts"]:
-                            if "p" in st:
+                            # `*p = v` / `(*p).f = v` write through the pointer, they do not reassign the local p
+                            if "p" in st and (not st["p"][1] or st["p"][1][0] != "*"):
                                 assigned.add(st["p"][0])
                         t = blk["term"]
                         if t["k"] in ("call", "yield") and "dest" in t:
@@ -315,6 +316,7 @@ class Walker:
                 return
             st.visited = st.visited + (bb,)
             if bb in self.loop_assigned and st.visited.count(bb) == 1:
+                st.events.append(("head", bb))
                 # loop header: locals carried round the loop are unknown here, not their initial value
                 for l in self.loop_assigned[bb]:
                     if l in st.env:
